@@ -26,10 +26,34 @@ def run(ctx):
         r = gen.inject(rng, L, kind)
         if r:
             cases.append((kind,) + tuple(r[:3]) + (list(r[3]) if len(r) > 3 else [],))
-    stores = [(pipe.single("\n".join(c[1]) + "\n"), "a.s") for c in cases]
+    # half of the programs are spread over an include tree: the diagnostic must be in the file and at the file-relative
+    # line where the injected text lives
+    from props import C15
+    stores, wheres = [], []
+    for c in cases:
+        if rng.random() < 0.5:
+            files, base, where = C15.split_program(rng, list(c[1]))
+            files = [(p_, t if t.endswith("\n") else t + "\n") for p_, t in files]
+            stores.append((files, base))
+            wheres.append((where, [p_ for p_, _ in files]))
+        else:
+            stores.append((pipe.single("\n".join(c[1]) + "\n"), "a.s"))
+            wheres.append(None)
     dis, parsed = pipe.diag_compare(ctx, stores)
     failing, per_kind = [], {}
-    for (kind, L, code, marker, extra), (sa, ia, sm, im) in zip(cases, parsed):
+    runs = lib.run_impl(ctx, [lib.store_cmd("repeat 1", f, b) for f, b in stores], tag="located")
+    from props.C18 import lib_items
+    for (kind, L, code, marker, extra), (sa, ia, sm, im), wh, rl in zip(cases, parsed, wheres, runs):
+        if wh is not None:
+            # map every item of the tree back to the line of the undivided program (file NAME + file-relative line)
+            items = lib_items(rl) or []
+            ia = []
+            for it in items:
+                wl = wh[0].get(it["file"])
+                ol = wl[it["r"][0]] if wl is not None and it["r"][0] < len(wl) and wl[it["r"][0]] is not None else -1
+                ia.append(("", it["title"], "", 0, ["%d.%d.%d-x" % (ol, it["r"][1], it["r"][2])], False))
+            if sa == "ok" and lib_items(rl) is None:
+                sa = "timeout"
         per_kind[kind] = per_kind.get(kind, 0) + 1
         if sa != "ok":
             failing.append(dict(program="\n".join(L), injected=kind, why="linting ends with %s" % sa))
